@@ -10,6 +10,8 @@ META = {
         "None/falsy scalars/lists/tuples/dicts/unique sentinels, internal/self/multi-event transitions, "
         "both engines, rtc on/off; the value of every send is compared with [before returns]+[on returns] "
         "(permutation inside each segment), unwrapped when one, None when none or nothing fired. "
+        ""
+        "20% of the machines in an alternative declaration style. "
         "distinct_nontrivial = distinct (#before, #on, value-kind pattern, transition kind, engine) observed."
     ),
     "assumptions": ["order inside the before segment and inside the on segment is unconstrained"],
